@@ -3,10 +3,24 @@ package routing
 // C16 monitor (concurrent part): 2-4 goroutines drive the real
 // routing.ControlTower (the documented per-hash serialisation point) on top of
 // a real KVStore (bbolt, real batching backend) or SQLStore (SQLite), plus
-// direct store DeletePayment as the RPC server does. Histories are recorded at
-// the client boundary (call stamp before, return stamp after, one monotonic
-// counter) and checked with porcupine against a sequential model written from
-// the documented rules, partitioned by payment hash.
+// direct store DeletePayment(hash, failedHtlcsOnly) and the bulk
+// DeletePayments(failedOnly, failedHtlcsOnly) as the RPC server does. Histories
+// are recorded at the client boundary (call stamp before, return stamp after,
+// one monotonic counter) and checked with porcupine against a sequential model
+// written from the documented rules, partitioned by payment hash (the bulk
+// delete is one sub-operation per hash with the call's stamps).
+//
+// Transaction interposer: the kvdb.Backend given to NewKVStore and the
+// BatchedSQLQueries executor given to NewSQLStore are wrapped. Driven by a
+// table drawn from the case PRNG, a client goroutine yields / sleeps a few
+// hundred microseconds before a database transaction begins and, after one
+// has committed, may be held until another client has committed a write (soft
+// cap 0.3-14 ms, extended up to 25 ms while another client's write transaction
+// is under way). Delays only, never errors, never inside a transaction. This
+// spreads the transactions of a store / tower call that uses more than one
+// (check and act in different critical sections) so that other clients' calls
+// land between them; how often that was observed is counted
+// (interleaved_between_tx) and has a floor.
 //
 //   verdict-bearing
 //     linearizability        porcupine says Illegal for a history
@@ -19,10 +33,23 @@ package routing
 //     conc_final_status      final record: status is not the documented
 //                            function of its attempts / failed with a settled
 //                            attempt
+//     conc_status_function   same two checks on every record a fetch returned
+//                            during the concurrent phase (key <backend>:fetched)
+//     conc_inflight_status   an attempt was admitted and no settle / fail of it
+//                            ever succeeded, yet the final reported status of
+//                            its hash is not in-flight ("status is exactly the
+//                            documented function of the attempts")
+//     conc_reinit_inflight   ... and a final InitPayment of that hash was
+//                            admitted ("refuses to re-initiate a payment hash
+//                            that is ... in flight")
 //     race_detector          (driver) -race reports attributed to anchored files
 //   inconclusive / diagnostic
 //     porcupine Unknown (timeout) is counted as lin_unknown, never a violation
-//     db_busy answers are modelled as "no effect" and counted
+//     db_busy answers are modelled as "no effect" and counted; a db_busy
+//     answer of the two-step tower InitPayment is ambiguous: such a history
+//     is skipped (lin_skipped_ambiguous)
+//     conc_delall_count      DeletePayments count outside [0, #hashes] or
+//                            non-zero with failedHtlcsOnly (diagnostic)
 
 import (
 	"context"
@@ -31,6 +58,7 @@ import (
 	"fmt"
 	"os"
 	"path/filepath"
+	"runtime"
 	"sort"
 	"strings"
 	"sync"
@@ -157,12 +185,18 @@ type verifC16CIn struct {
 	Plain  bool   `json:"plain,omitempty"`
 	Val    uint64 `json:"val,omitempty"`
 	Reason byte   `json:"reason,omitempty"`
+	// FO / HO: failedOnly / failedHtlcsOnly of DeletePayment(s). H is -1
+	// for the bulk call in the recorded history.
+	FO bool `json:"fo,omitempty"`
+	HO bool `json:"ho,omitempty"`
 }
 
 type verifC16COut struct {
 	Class string `json:"class"` // ok | refused | db_busy | vanished
 	Proj  string `json:"proj,omitempty"`
 	Err   string `json:"err,omitempty"`
+	N     int    `json:"n,omitempty"`    // DeletePayments count
+	Self  string `json:"self,omitempty"` // fetched record fails its own status function
 }
 
 // verifC16CStep is the sequential specification: it returns whether the
@@ -263,11 +297,31 @@ func verifC16CStep(s verifC16CState, in verifC16CIn, out verifC16COut) (bool,
 		n.Reason = int(in.Reason)
 		return okOut, n
 
+	case "delall":
+		// DeletePayments never refuses: payments that are not
+		// removable (or not failed with failedOnly) are skipped.
+		if st == verifC16CNone || st == verifC16CInFlight ||
+			(in.FO && st != verifC16CFailed) {
+
+			return okOut, s
+		}
+		if !in.HO {
+			return okOut, verifC16CState{Reason: -1}
+		}
+		var keep []verifC16CAtt
+		for _, a := range n.Atts {
+			if !a.Failed {
+				keep = append(keep, a)
+			}
+		}
+		n.Atts = keep
+		return okOut, n
+
 	case "del", "delfa":
 		if st == verifC16CNone || st == verifC16CInFlight {
 			return refused()
 		}
-		if in.K == "del" {
+		if in.K == "del" && !in.HO {
 			return okOut, verifC16CState{Reason: -1}
 		}
 		var keep []verifC16CAtt
@@ -327,7 +381,267 @@ var verifC16CModel = porcupine.Model{
 // Real system.
 // ---------------------------------------------------------------------------
 
+// ---------------------------------------------------------------------------
+// Transaction interposer (delays only).
+// ---------------------------------------------------------------------------
+
+// verifC16CTx is one database transaction as seen at the executor boundary:
+// Begin is drawn right before the real executor is entered, End right after
+// it returned (both from one monotonic counter).
+type verifC16CTx struct {
+	Client int   `json:"client"`
+	Call   int64 `json:"call"`
+	Begin  int64 `json:"begin"`
+	End    int64 `json:"end"`
+	RO     bool  `json:"ro,omitempty"`
+	OK     bool  `json:"ok"`
+}
+
+type verifC16CClient struct {
+	id   int
+	call atomic.Int64
+}
+
+// Pause actions of the plan table.
+const (
+	verifC16CPNone = iota
+	verifC16CPYield
+	verifC16CPSleep
+	verifC16CPHold
+)
+
+type verifC16CPause struct {
+	kind int
+	us   int
+}
+
+type verifC16CSched struct {
+	on      atomic.Bool
+	seq     atomic.Int64
+	commits atomic.Int64 // committed write transactions of all clients
+	running atomic.Int64 // client goroutines that still have calls to make
+	holding atomic.Int64 // client goroutines inside a hold
+	writers atomic.Int64 // write transactions of clients under way
+	holds   atomic.Int64 // holds taken
+	holdsOK atomic.Int64 // holds ended by another client's commit
+	planIdx atomic.Int64
+	before  []verifC16CPause
+	after   []verifC16CPause
+	clients sync.Map // goroutine id -> *verifC16CClient
+	mu      sync.Mutex
+	txs     []verifC16CTx
+}
+
+func verifC16CGoid() uint64 {
+	var buf [64]byte
+	n := runtime.Stack(buf[:], false)
+	var id uint64
+	for _, ch := range buf[len("goroutine "):n] {
+		if ch < '0' || ch > '9' {
+			break
+		}
+		id = id*10 + uint64(ch-'0')
+	}
+	return id
+}
+
+// arm draws the pause tables of one case from its PRNG.
+func (s *verifC16CSched) arm(r *verifRng) {
+	const n = 64
+	s.before = make([]verifC16CPause, n)
+	s.after = make([]verifC16CPause, n)
+	for i := 0; i < n; i++ {
+		switch w := r.Intn(100); {
+		case w < 45:
+		case w < 70:
+			s.before[i] = verifC16CPause{kind: verifC16CPYield}
+		default:
+			s.before[i] = verifC16CPause{kind: verifC16CPSleep,
+				us: 20 + r.Intn(280)}
+		}
+		switch w := r.Intn(100); {
+		case w < 30:
+		case w < 40:
+			s.after[i] = verifC16CPause{kind: verifC16CPYield}
+		case w < 50:
+			s.after[i] = verifC16CPause{kind: verifC16CPSleep,
+				us: 20 + r.Intn(280)}
+		case w < 75:
+			s.after[i] = verifC16CPause{kind: verifC16CPHold,
+				us: 300 + r.Intn(1700)}
+		default:
+			// Long enough for a bbolt write batch of another
+			// client (MaxBatchDelay 10ms) to be committed.
+			s.after[i] = verifC16CPause{kind: verifC16CPHold,
+				us: 2000 + r.Intn(12000)}
+		}
+	}
+	s.mu.Lock()
+	s.txs = nil
+	s.mu.Unlock()
+	s.planIdx.Store(0)
+	s.running.Store(0)
+	s.holding.Store(0)
+	s.writers.Store(0)
+	s.holds.Store(0)
+	s.holdsOK.Store(0)
+	s.on.Store(true)
+}
+
+func (s *verifC16CSched) disarm() []verifC16CTx {
+	s.on.Store(false)
+	s.mu.Lock()
+	defer s.mu.Unlock()
+	txs := s.txs
+	s.txs = nil
+	return txs
+}
+
+func (s *verifC16CSched) pause(p verifC16CPause) {
+	switch p.kind {
+	case verifC16CPYield:
+		runtime.Gosched()
+	case verifC16CPSleep:
+		time.Sleep(time.Duration(p.us) * time.Microsecond)
+	case verifC16CPHold:
+		// Wait until another client has committed a write, at most
+		// p.us microseconds.
+		// p.us microseconds, and only while some other client is
+		// still running and not itself held.
+		// While another client's write transaction is under way (a
+		// bbolt write batch takes MaxBatchDelay = 10ms) the hold is
+		// extended up to a hard cap.
+		c0 := s.commits.Load()
+		t0 := time.Now()
+		soft := t0.Add(time.Duration(p.us) * time.Microsecond)
+		hard := t0.Add(25 * time.Millisecond)
+		s.holding.Add(1)
+		for s.commits.Load() == c0 {
+			now := time.Now()
+			if now.After(hard) {
+				break
+			}
+			if s.writers.Load() == 0 && (now.After(soft) ||
+				s.running.Load() <= s.holding.Load()) {
+
+				break
+			}
+			time.Sleep(30 * time.Microsecond)
+		}
+		s.holding.Add(-1)
+		s.holds.Add(1)
+		if s.commits.Load() != c0 {
+			s.holdsOK.Add(1)
+		}
+	}
+}
+
+// around runs one database transaction of a client call: pause, transaction,
+// pause. Calls from goroutines that are not registered clients (sequential
+// phases, bbolt's own goroutines) pass straight through.
+func (s *verifC16CSched) around(ro bool, run func() error) error {
+	if !s.on.Load() {
+		return run()
+	}
+	v, ok := s.clients.Load(verifC16CGoid())
+	if !ok {
+		return run()
+	}
+	cl := v.(*verifC16CClient)
+	i := int(s.planIdx.Add(1))
+	s.pause(s.before[i%len(s.before)])
+	if !ro {
+		s.writers.Add(1)
+	}
+	begin := s.seq.Add(1)
+	err := run()
+	if !ro {
+		if err == nil {
+			s.commits.Add(1)
+		}
+		s.writers.Add(-1)
+	}
+	end := s.seq.Add(1)
+	s.mu.Lock()
+	s.txs = append(s.txs, verifC16CTx{Client: cl.id, Call: cl.call.Load(),
+		Begin: begin, End: end, RO: ro, OK: err == nil})
+	s.mu.Unlock()
+	s.pause(s.after[i%len(s.after)])
+	return err
+}
+
+// verifC16CGaps counts, over the calls that used more than one transaction,
+// the gaps between two consecutive transactions of one call, and how many of
+// them contain a complete successful write transaction of another client.
+func verifC16CGaps(txs []verifC16CTx) (multiCalls, gaps, interleaved int) {
+	type ck struct {
+		client int
+		call   int64
+	}
+	by := map[ck][]verifC16CTx{}
+	for _, t := range txs {
+		k := ck{t.Client, t.Call}
+		by[k] = append(by[k], t)
+	}
+	for k, l := range by {
+		if len(l) < 2 {
+			continue
+		}
+		multiCalls++
+		sort.Slice(l, func(i, j int) bool { return l[i].Begin < l[j].Begin })
+		for i := 0; i+1 < len(l); i++ {
+			gaps++
+			for _, o := range txs {
+				if o.Client != k.client && !o.RO && o.OK &&
+					o.Begin > l[i].End && o.End < l[i+1].Begin {
+
+					interleaved++
+					break
+				}
+			}
+		}
+	}
+	return multiCalls, gaps, interleaved
+}
+
+// verifC16CKV wraps the kvdb backend of the KVStore.
+type verifC16CKV struct {
+	kvdb.Backend
+	s *verifC16CSched
+}
+
+func (w *verifC16CKV) View(f func(tx kvdb.RTx) error, reset func()) error {
+	return w.s.around(true, func() error { return w.Backend.View(f, reset) })
+}
+
+func (w *verifC16CKV) Update(f func(tx kvdb.RwTx) error, reset func()) error {
+	return w.s.around(false, func() error {
+		return w.Backend.Update(f, reset)
+	})
+}
+
+// Batch keeps the wrapper a walletdb.BatchDB so that kvdb.Batch still uses
+// the real batching of the bolt backend.
+func (w *verifC16CKV) Batch(f func(tx kvdb.RwTx) error) error {
+	return w.s.around(false, func() error { return kvdb.Batch(w.Backend, f) })
+}
+
+// verifC16CSQL wraps the transaction executor of the SQLStore.
+type verifC16CSQL struct {
+	paymentsdb.BatchedSQLQueries
+	s *verifC16CSched
+}
+
+func (w *verifC16CSQL) ExecTx(ctx context.Context, opts sqldb.TxOptions,
+	body func(paymentsdb.SQLQueries) error, reset func()) error {
+
+	return w.s.around(opts.ReadOnly(), func() error {
+		return w.BatchedSQLQueries.ExecTx(ctx, opts, body, reset)
+	})
+}
+
 type verifC16CStores struct {
+	sched   *verifC16CSched
 	db      paymentsdb.DB
 	tower   ControlTower
 	backend string
@@ -357,7 +671,7 @@ func verifC16COpen(t testing.TB, backend string) *verifC16CStores {
 	if err != nil {
 		t.Fatalf("scratch: %v", err)
 	}
-	s := &verifC16CStores{backend: backend}
+	s := &verifC16CStores{backend: backend, sched: &verifC16CSched{}}
 	s.closers = append(s.closers, func() { os.RemoveAll(dir) })
 	switch backend {
 	case "kv":
@@ -370,7 +684,7 @@ func verifC16COpen(t testing.TB, backend string) *verifC16CStores {
 			t.Fatalf("bolt: %v", err)
 		}
 		s.closers = append(s.closers, func() { be.Close() })
-		kv, err := paymentsdb.NewKVStore(be)
+		kv, err := paymentsdb.NewKVStore(&verifC16CKV{Backend: be, s: s.sched})
 		if err != nil {
 			s.Close()
 			t.Fatalf("kvstore: %v", err)
@@ -396,7 +710,8 @@ func verifC16COpen(t testing.TB, backend string) *verifC16CStores {
 				return base.WithTx(tx)
 			})
 		sq, err := paymentsdb.NewSQLStore(&paymentsdb.SQLStoreConfig{
-			QueryCfg: sqldb.DefaultSQLiteConfig()}, ex)
+			QueryCfg: sqldb.DefaultSQLiteConfig()},
+			&verifC16CSQL{BatchedSQLQueries: ex, s: s.sched})
 		if err != nil {
 			s.Close()
 			t.Fatalf("sqlstore: %v", err)
@@ -508,6 +823,47 @@ func verifC16CProject(p *paymentsdb.MPPayment) string {
 	return sb.String()
 }
 
+// verifC16CSelfCheck evaluates, on one returned record and without the model,
+// the two clauses of the statement that speak about a reported payment: the
+// settled plus in-flight attempt amounts stay within the payment amount, and
+// the status is the documented function of the attempts and failure reason.
+func verifC16CSelfCheck(p *paymentsdb.MPPayment) (kind, detail string) {
+	if p == nil || p.Info == nil {
+		return "", ""
+	}
+	var sent uint64
+	var i, s, f bool
+	for _, a := range p.HTLCs {
+		switch {
+		case a.Failure != nil:
+			f = true
+		case a.Settle != nil:
+			s = true
+			sent += uint64(a.Route.ReceiverAmt())
+		default:
+			i = true
+			sent += uint64(a.Route.ReceiverAmt())
+		}
+	}
+	if sent > uint64(p.Info.Value) {
+		return "conservation", fmt.Sprintf("settled+in-flight %d exceed "+
+			"value %d", sent, uint64(p.Info.Value))
+	}
+	want := verifC16CTruth[verifC16CB(i)<<3|verifC16CB(s)<<2|
+		verifC16CB(f)<<1|verifC16CB(p.FailureReason != nil)]
+	got := map[paymentsdb.PaymentStatus]int{
+		paymentsdb.StatusInitiated: verifC16CInitiated,
+		paymentsdb.StatusInFlight:  verifC16CInFlight,
+		paymentsdb.StatusSucceeded: verifC16CSucceeded,
+		paymentsdb.StatusFailed:    verifC16CFailed}[p.Status]
+	if want != got {
+		return "status", fmt.Sprintf("record reports %s, documented "+
+			"function of its attempts gives %s", verifC16CName[got],
+			verifC16CName[want])
+	}
+	return "", ""
+}
+
 type verifC16CRec struct {
 	Client int          `json:"client"`
 	In     verifC16CIn  `json:"in"`
@@ -524,16 +880,23 @@ type verifC16CCase struct {
 	clock  atomic.Int64
 	mu     sync.Mutex
 	recs   []verifC16CRec
+	cls    map[int]*verifC16CClient
 }
 
 func (c *verifC16CCase) exec(client int, in verifC16CIn) verifC16COut {
 	ctx := context.Background()
-	h := c.hashes[in.H]
+	var h lntypes.Hash
+	if in.H >= 0 {
+		h = c.hashes[in.H]
+	}
 	var (
 		err error
 		out verifC16COut
 	)
 	call := c.clock.Add(1)
+	if cl := c.cls[client]; cl != nil {
+		cl.call.Store(call)
+	}
 	switch in.K {
 	case "init":
 		err = c.st.tower.InitPayment(ctx, h, &paymentsdb.PaymentCreationInfo{
@@ -555,7 +918,9 @@ func (c *verifC16CCase) exec(client int, in verifC16CIn) verifC16COut {
 			paymentsdb.FailureReason(in.Reason))
 	case "del":
 		// As the RPC server does: straight on the store.
-		err = c.st.db.DeletePayment(ctx, h, false)
+		err = c.st.db.DeletePayment(ctx, h, in.HO)
+	case "delall":
+		out.N, err = c.st.db.DeletePayments(ctx, in.FO, in.HO)
 	case "delfa":
 		err = c.st.tower.DeleteFailedAttempts(ctx, h)
 	case "fetch":
@@ -564,6 +929,9 @@ func (c *verifC16CCase) exec(client int, in verifC16CIn) verifC16COut {
 		if err == nil {
 			mp, _ := p.(*paymentsdb.MPPayment)
 			out.Proj = verifC16CProject(mp)
+			if k, d := verifC16CSelfCheck(mp); k != "" {
+				out.Self = k + ": " + d
+			}
 		}
 	}
 	ret := c.clock.Add(1)
@@ -586,9 +954,13 @@ func (c *verifC16CCase) exec(client int, in verifC16CIn) verifC16COut {
 	return out
 }
 
-// verifC16CGen produces the per-client op lists of one case.
-func verifC16CGen(r *verifRng, base uint64, nh int, value uint64) (pre []verifC16CIn,
-	clients [][]verifC16CIn) {
+// verifC16CGen produces the per-client op lists of one case. In the "contend"
+// profile every payment starts freshly initiated (at most one failed attempt)
+// and the first operation of every client - all clients are released together
+// - is drawn from the operations that are admissible in that state, so that
+// store-level deletes / initiations race tower registrations at once.
+func verifC16CGen(r *verifRng, base uint64, nh int, value uint64,
+	contend bool) (pre []verifC16CIn, clients [][]verifC16CIn) {
 
 	nextID := base
 	var regIDs [][]uint64 = make([][]uint64, nh)
@@ -620,8 +992,50 @@ func verifC16CGen(r *verifRng, base uint64, nh int, value uint64) (pre []verifC1
 		regIDs[h] = append(regIDs[h], in.ID)
 		return in
 	}
+	mkDelAll := func() verifC16CIn {
+		in := verifC16CIn{K: "delall", H: -1}
+		switch w := r.Intn(10); {
+		case w < 5:
+		case w < 7:
+			in.FO = true
+		case w < 9:
+			in.HO = true
+		default:
+			in.FO, in.HO = true, true
+		}
+		return in
+	}
+	// Start state of the contend profile: 0 initiated, 1 unknown, 2 failed.
+	cstate := 0
+	if contend {
+		switch w := r.Intn(100); {
+		case w < 60:
+		case w < 75:
+			cstate = 1
+		default:
+			cstate = 2
+		}
+	}
 	for h := 0; h < nh; h++ {
-		if r.Chance(5, 6) {
+		switch {
+		case contend && cstate == 1:
+		case contend:
+			pre = append(pre, verifC16CIn{K: "init", H: h, Val: value})
+			if r.Chance(1, 3) {
+				in := mkReg(h)
+				in.Amt = value / 4
+				in.Plain = false
+				pre = append(pre, in)
+				if cstate == 2 || r.Chance(3, 4) {
+					pre = append(pre, verifC16CIn{K: "failatt", H: h,
+						ID: in.ID})
+				}
+			}
+			if cstate == 2 {
+				pre = append(pre, verifC16CIn{K: "failpay", H: h,
+					Reason: byte(r.Intn(6))})
+			}
+		case r.Chance(5, 6):
 			pre = append(pre, verifC16CIn{K: "init", H: h, Val: value})
 			for k := r.Intn(3); k > 0; k-- {
 				in := mkReg(h)
@@ -632,35 +1046,77 @@ func verifC16CGen(r *verifRng, base uint64, nh int, value uint64) (pre []verifC1
 		}
 	}
 	nc := 2 + r.Intn(3)
-	// Registrations are planned first so that settles/fails can target
-	// attempts of other clients.
-	type slot struct{ c, i int }
 	clients = make([][]verifC16CIn, nc)
 	for c := 0; c < nc; c++ {
 		n := 3 + r.Intn(4)
+		if contend {
+			n = 2 + r.Intn(3)
+		}
 		clients[c] = make([]verifC16CIn, n)
 		for i := 0; i < n; i++ {
 			h := r.Intn(nh)
 			w := r.Intn(100)
 			var in verifC16CIn
 			switch {
-			case w < 36:
+			case contend && i == 0 && cstate != 0:
+				switch {
+				case w < 45:
+					in = verifC16CIn{K: "init", H: h, Val: value}
+				case w < 60:
+					in = mkReg(h)
+				case w < 75:
+					in = mkDelAll()
+				case w < 83:
+					in = verifC16CIn{K: "del", H: h}
+				case w < 88:
+					in = verifC16CIn{K: "failpay", H: h,
+						Reason: byte(r.Intn(6))}
+				case w < 93:
+					in = verifC16CIn{K: "delfa", H: h}
+				default:
+					in = verifC16CIn{K: "fetch", H: h}
+				}
+			case contend && i == 0:
+				switch {
+				case w < 45:
+					in = mkReg(h)
+				case w < 65:
+					in = mkDelAll()
+				case w < 73:
+					in = verifC16CIn{K: "del", H: h}
+				case w < 75:
+					in = verifC16CIn{K: "del", H: h, HO: true}
+				case w < 81:
+					in = verifC16CIn{K: "init", H: h, Val: value}
+				case w < 89:
+					in = verifC16CIn{K: "failpay", H: h,
+						Reason: byte(r.Intn(6))}
+				case w < 93:
+					in = verifC16CIn{K: "delfa", H: h}
+				default:
+					in = verifC16CIn{K: "fetch", H: h}
+				}
+			case w < 32:
 				in = mkReg(h)
-			case w < 52:
+			case w < 46:
 				in = verifC16CIn{K: "settle", H: h}
-			case w < 68:
+			case w < 60:
 				in = verifC16CIn{K: "failatt", H: h}
-			case w < 75:
+			case w < 67:
 				in = verifC16CIn{K: "failpay", H: h,
 					Reason: byte(r.Intn(6))}
-			case w < 86:
+			case w < 76:
 				in = verifC16CIn{K: "fetch", H: h}
-			case w < 92:
+			case w < 84:
 				in = verifC16CIn{K: "init", H: h, Val: value}
-			case w < 96:
+			case w < 88:
 				in = verifC16CIn{K: "del", H: h}
-			default:
+			case w < 90:
+				in = verifC16CIn{K: "del", H: h, HO: true}
+			case w < 93:
 				in = verifC16CIn{K: "delfa", H: h}
+			default:
+				in = mkDelAll()
 			}
 			clients[c][i] = in
 		}
@@ -687,7 +1143,8 @@ func verifC16COverlaps(recs []verifC16CRec) int {
 	for i := range recs {
 		for j := i + 1; j < len(recs); j++ {
 			a, b := recs[i], recs[j]
-			if a.In.H == b.In.H && a.Client != b.Client &&
+			sameHash := a.In.H == b.In.H || a.In.H < 0 || b.In.H < 0
+			if sameHash && a.Client != b.Client &&
 				a.Call < b.Ret && b.Call < a.Ret {
 
 				n++
@@ -704,19 +1161,21 @@ func verifC16CRunCase(t *testing.T, vc *verifCtx, st *verifC16CStores,
 	if rng.Chance(1, 4) {
 		nh = 2
 	}
+	contend := rng.Chance(1, 3)
 	value := uint64(1000)
 	if rng.Chance(1, 5) {
 		value = 4 + rng.U64n(8)
 	}
 	c := &verifC16CCase{st: st, value: value,
-		atts: map[uint64]*paymentsdb.HTLCAttemptInfo{}}
+		atts: map[uint64]*paymentsdb.HTLCAttemptInfo{},
+		cls:  map[int]*verifC16CClient{}}
 	for h := 0; h < nh; h++ {
 		var hh lntypes.Hash
 		copy(hh[:], rng.Bytes(32))
 		c.hashes = append(c.hashes, hh)
 	}
 	base := uint64(idx+1) * 128
-	pre, clients := verifC16CGen(rng, base, nh, value)
+	pre, clients := verifC16CGen(rng, base, nh, value, contend)
 	all := append([]verifC16CIn(nil), pre...)
 	for _, cl := range clients {
 		all = append(all, cl...)
@@ -738,12 +1197,21 @@ func verifC16CRunCase(t *testing.T, vc *verifCtx, st *verifC16CStores,
 	}
 	preLen := len(c.recs)
 
+	for ci := range clients {
+		c.cls[ci+1] = &verifC16CClient{id: ci + 1}
+	}
+	st.sched.arm(rng.Fork("sched"))
+	st.sched.running.Store(int64(len(clients)))
 	start := make(chan struct{})
 	var wg sync.WaitGroup
 	for ci := range clients {
 		wg.Add(1)
 		go func(ci int) {
 			defer wg.Done()
+			gid := verifC16CGoid()
+			st.sched.clients.Store(gid, c.cls[ci+1])
+			defer st.sched.clients.Delete(gid)
+			defer st.sched.running.Add(-1)
 			<-start
 			for _, in := range clients[ci] {
 				c.exec(ci+1, in)
@@ -758,15 +1226,47 @@ func verifC16CRunCase(t *testing.T, vc *verifCtx, st *verifC16CStores,
 	case <-time.After(5 * time.Minute):
 		t.Fatalf("verif: concurrent clients did not finish (watchdog)")
 	}
+	txlog := st.sched.disarm()
 	concLen := len(c.recs)
+	finalProj := make([]verifC16COut, nh)
 	for h := 0; h < nh; h++ {
-		c.exec(0, verifC16CIn{K: "fetch", H: h})
+		finalProj[h] = c.exec(0, verifC16CIn{K: "fetch", H: h})
+	}
+
+	// Attempts that were admitted and that no settle / fail call may have
+	// resolved: nothing can take them out of flight, so their payment
+	// stays in flight whatever else was called.
+	unresolved := make([][]uint64, nh)
+	{
+		maybeResolved := map[uint64]bool{}
+		for _, r := range c.recs {
+			if (r.In.K == "settle" || r.In.K == "failatt") &&
+				r.Out.Class != "refused" {
+
+				maybeResolved[r.In.ID] = true
+			}
+		}
+		for _, r := range c.recs {
+			if r.In.K == "reg" && r.Out.Class == "ok" &&
+				!maybeResolved[r.In.ID] {
+
+				unresolved[r.In.H] = append(unresolved[r.In.H], r.In.ID)
+			}
+		}
+	}
+	probe := make([]*verifC16COut, nh)
+	for h := 0; h < nh; h++ {
+		if len(unresolved[h]) == 0 {
+			continue
+		}
+		o := c.exec(0, verifC16CIn{K: "init", H: h, Val: value})
+		probe[h] = &o
 	}
 
 	recs := append([]verifC16CRec(nil), c.recs...)
 	sort.Slice(recs, func(i, j int) bool { return recs[i].Call < recs[j].Call })
 	witness := map[string]any{"case": idx, "backend": st.backend,
-		"value": value, "history": recs}
+		"value": value, "contend": contend, "history": recs, "txlog": txlog}
 
 	vc.Count("histories", 1)
 	vc.Count("history_ops", int64(len(recs)))
@@ -788,21 +1288,92 @@ func verifC16CRunCase(t *testing.T, vc *verifCtx, st *verifC16CStores,
 		vc.Count("overlapping_pairs", int64(ov))
 	}
 
-	// (1) linearizability.
-	ops := make([]porcupine.Operation, len(recs))
-	for i, r := range recs {
-		ops[i] = porcupine.Operation{ClientId: r.Client, Input: r.In,
-			Call: r.Call, Output: r.Out, Return: r.Ret}
+	// What the interposer observed.
+	{
+		multi, gaps, inter := verifC16CGaps(txlog)
+		vc.Count("tx_observed", int64(len(txlog)))
+		vc.Count("calls_multi_tx", int64(multi))
+		vc.Count("multi_tx_gaps", int64(gaps))
+		vc.Count("gaps_interleaved", int64(inter))
+		vc.Count("holds_after_tx", st.sched.holds.Load())
+		vc.Count("holds_released_by_commit", st.sched.holdsOK.Load())
+		if inter > 0 {
+			vc.Count("interleaved_between_tx", 1)
+			vc.Count("interleaved_between_tx_"+st.backend, 1)
+		}
+		if contend {
+			vc.Count("histories_contend", 1)
+		}
+		nDelAll, delAllOv := 0, 0
+		for _, r := range recs[preLen:concLen] {
+			if r.In.K != "delall" {
+				continue
+			}
+			nDelAll++
+			vc.Count("delall_calls", 1)
+			if r.Out.Class == "ok" && r.Out.N > 0 {
+				vc.Count("delall_deleted_some", 1)
+			}
+			if r.Out.Class == "ok" && (r.Out.N < 0 || r.Out.N > nh ||
+				(r.In.HO && r.Out.N != 0)) {
+
+				vc.Diag("conc_delall_count", fmt.Sprintf("case %d: %+v -> %d",
+					idx, r.In, r.Out.N))
+			}
+			for _, o := range recs[preLen:concLen] {
+				if o.Client != r.Client && o.In.K == "reg" &&
+					o.Call < r.Ret && r.Call < o.Ret {
+
+					delAllOv++
+					break
+				}
+			}
+		}
+		if nDelAll > 0 {
+			vc.Count("histories_with_delall", 1)
+			vc.Count("histories_with_delall_"+st.backend, 1)
+		}
+		if delAllOv > 0 {
+			vc.Count("histories_delall_overlaps_reg", 1)
+		}
 	}
-	res, _ := porcupine.CheckOperationsVerbose(verifC16CModel, ops,
-		20*time.Second)
-	vc.Count("eval_linearizability", 1)
+
+	// (1) linearizability. The bulk delete acts on every hash: one
+	// sub-operation per hash with the stamps of the call.
+	ambiguous := false
+	ops := make([]porcupine.Operation, 0, len(recs)+4)
+	for _, r := range recs {
+		if r.In.K == "init" && r.Out.Class == "db_busy" {
+			ambiguous = true
+		}
+		if r.In.K == "delall" {
+			for h := 0; h < nh; h++ {
+				in := r.In
+				in.H = h
+				ops = append(ops, porcupine.Operation{ClientId: r.Client,
+					Input: in, Call: r.Call, Output: r.Out, Return: r.Ret})
+			}
+			continue
+		}
+		ops = append(ops, porcupine.Operation{ClientId: r.Client, Input: r.In,
+			Call: r.Call, Output: r.Out, Return: r.Ret})
+	}
+	res := porcupine.Unknown
+	if ambiguous {
+		vc.Count("lin_skipped_ambiguous", 1)
+	} else {
+		res, _ = porcupine.CheckOperationsVerbose(verifC16CModel, ops,
+			20*time.Second)
+		vc.Count("eval_linearizability", 1)
+	}
 	switch res {
 	case porcupine.Ok:
 		vc.Count("lin_ok", 1)
 	case porcupine.Unknown:
-		vc.Count("lin_unknown", 1)
-		vc.Diag("porcupine_timeout", fmt.Sprintf("case %d", idx))
+		if !ambiguous {
+			vc.Count("lin_unknown", 1)
+			vc.Diag("porcupine_timeout", fmt.Sprintf("case %d", idx))
+		}
 	case porcupine.Illegal:
 		vc.Violation("linearizability", st.backend,
 			"client-boundary history is not linearizable against the "+
@@ -814,7 +1385,12 @@ func verifC16CRunCase(t *testing.T, vc *verifCtx, st *verifC16CStores,
 	// deleted during the concurrent phase.
 	stable := true
 	for _, r := range recs[preLen:concLen] {
-		if (r.In.K == "init" || r.In.K == "del") && r.Out.Class != "refused" {
+		switch {
+		case r.In.K == "init" && r.Out.Class != "refused",
+			r.In.K == "del" && !r.In.HO && r.Out.Class != "refused",
+			r.In.K == "delall" && !r.In.HO &&
+				(r.Out.Class != "ok" || r.Out.N != 0):
+
 			stable = false
 		}
 	}
@@ -864,6 +1440,47 @@ func verifC16CRunCase(t *testing.T, vc *verifCtx, st *verifC16CStores,
 		}
 	}
 
+	// (2b) every record a fetch returned while the clients were running.
+	for _, r := range recs[preLen:concLen] {
+		if r.In.K != "fetch" || r.Out.Class != "ok" {
+			continue
+		}
+		vc.Count("eval_fetched_record", 1)
+		if r.Out.Self != "" {
+			vc.Violation("conc_status_function", st.backend+":fetched",
+				"fetched record: "+r.Out.Self, witness)
+			dirty = true
+		}
+	}
+
+	// (2c) admitted and never resolved attempts keep their hash in flight
+	// and not re-initiable.
+	for h := 0; h < nh; h++ {
+		if len(unresolved[h]) == 0 {
+			continue
+		}
+		vc.Count("eval_inflight_kept", 1)
+		if finalProj[h].Class == "refused" || (finalProj[h].Class == "ok" &&
+			!strings.HasPrefix(finalProj[h].Proj, "inflight ")) {
+
+			vc.Violation("conc_inflight_status", st.backend,
+				fmt.Sprintf("attempts %v were admitted and never settled "+
+					"or failed, the final reported state is %q (%s)",
+					unresolved[h], finalProj[h].Proj, finalProj[h].Err),
+				witness)
+			dirty = true
+		}
+		if probe[h] != nil && (probe[h].Class == "ok" ||
+			probe[h].Class == "vanished") {
+
+			vc.Violation("conc_reinit_inflight", st.backend,
+				fmt.Sprintf("InitPayment admitted although attempts %v "+
+					"were admitted and never settled or failed",
+					unresolved[h]), witness)
+			dirty = true
+		}
+	}
+
 	// (3) final record.
 	for h := 0; h < nh; h++ {
 		p, err := st.db.FetchPayment(context.Background(), c.hashes[h])
@@ -910,7 +1527,12 @@ func verifC16CRunCase(t *testing.T, vc *verifCtx, st *verifC16CStores,
 	if ov > 0 {
 		var toks []string
 		for _, r := range recs[preLen:concLen] {
-			toks = append(toks, r.In.K+":"+r.Out.Class)
+			k := r.In.K
+			if k == "delall" || k == "del" {
+				k += fmt.Sprintf("%d%d", verifC16CB(r.In.FO),
+					verifC16CB(r.In.HO))
+			}
+			toks = append(toks, k+":"+r.Out.Class)
 		}
 		sort.Strings(toks)
 		vc.Sig(fmt.Sprintf("%s|%d|%s", st.backend, len(clients),
